@@ -84,7 +84,8 @@ theorem waitNode_plain_fields (s : Sys) (nd : Node) (ds : List Name) (pc' : PC) 
   obtain ⟨g, sd, _⟩ := absorbDone_spec inp s false ds nd
   obtain ⟨_, s2, s3, s4⟩ := sd rfl
   simp only [waitNode, addWaits, Bool.false_eq_true, if_false]
-  exact ⟨s2, s4, s3, g.snapTask, g.snapCalc, g.waitRunCalc, by rw [g.waitRun], rfl, g.waitSelect⟩
+  refine ⟨s2, s4, s3, g.snapTask, g.snapCalc, g.waitRunCalc, by rw [g.waitRun], ?_, g.waitSelect⟩
+  trivial
 
 /-! ### `_add_task`: one step of the current node -/
 
@@ -109,12 +110,11 @@ theorem nodeStep_mlt {s s' : Sys} {n : Name} {nd : Node} {perm : List Name} (hF 
       refine mlt_create hd ?_ (hb' d (mkNode inp d (nd.anc ++ [d])) (by simp [setNode, hdn])) ?_
       · simp [setNode, hdn]
       · intro k hk
-        simp only [setNode] at hk
         by_cases e1 : k = n
-        · simp [e1] at hk
+        · simp [setNode, e1] at hk
         · by_cases e2 : k = d
-          · simp [e1, e2] at hk
-          · simpa [e1, e2] using hk
+          · subst e2; simp [setNode, hdn] at hk
+          · simpa [setNode, e1, e2] using hk
     | some y =>
       simp only [hd]
       split
@@ -139,7 +139,7 @@ theorem nodeStep_mlt {s s' : Sys} {n : Name} {nd : Node} {perm : List Name} (hF 
     · rename_i hp; cases hs
       have hl : perm.length = nd.pendCalc.length := hp.length_eq
       refine mlt_upd hn hN (SameM.of_nodes rfl) (Or.inr ⟨?_, ?_⟩)
-      · simp [calOf, hpc, PC.iterC, hl]; omega
+      · simp [calOf, hpc, PC.iterC, hl]
       · rw [restOf_setNode]
         simp [linNode, todoOf, posOf, setupTerm, hpc, PC.iterC, PC.iterT, PC.loopback, hl]; omega
     · cases hs
@@ -189,7 +189,7 @@ theorem nodeStep_mlt {s s' : Sys} {n : Name} {nd : Node} {perm : List Name} (hF 
           have hp0 : nd.pendTask.length + nd.pendCalc.length = 0 := by
             simp only [ne_eq, not_or, Decidable.not_not] at hp
             simp [hp.1, hp.2]
-          simp [restOf, hr, hsu, rOf, hrest]
+          simp [restOf, hc, hr, hsu, rOf]
           simp [linNode, todoOf, posOf, setupTerm, hpc, PC.iterC, PC.iterT, PC.loopback]; omega
       · cases hs
         refine mlt_upd hn hN (SameM.of_nodes rfl) (Or.inr ⟨?_, ?_⟩)
@@ -200,7 +200,7 @@ theorem nodeStep_mlt {s s' : Sys} {n : Name} {nd : Node} {perm : List Name} (hF 
     simp only [hpc] at hs; cases hs
     refine mlt_upd (x := { nd with pc := .afterSelf1 }) hn hN (SameM.of_nodes rfl) (Or.inr ⟨?_, ?_⟩)
     · simp [calOf, hpc, PC.iterC]
-    · simp [restOf, hr, rOf, hrest, hc]
+    · simp [restOf, hc, hr, hsu, rOf]
       simp [linNode, todoOf, posOf, setupTerm, hpc, PC.iterC, PC.iterT, PC.loopback]; omega
   | afterSelf1 =>
     simp only [hpc] at hs
@@ -215,7 +215,7 @@ theorem nodeStep_mlt {s s' : Sys} {n : Name} {nd : Node} {perm : List Name} (hF 
         refine mlt_upd (x := { nd with pc := .setupDecide, waitSelect := true }) hn hN (SameM.of_nodes rfl)
           (Or.inr ⟨?_, ?_⟩)
         · simp [calOf, hpc, PC.iterC]
-        · simp [restOf, hr, hsu, rOf, hrest]
+        · simp [restOf, hc, hr, hsu, rOf]
           simp [linNode, todoOf, posOf, setupTerm, hpc, PC.iterC, PC.iterT, PC.loopback]; split <;> omega
       · cases hs
         refine mlt_upd hn hN (SameM.of_nodes rfl) (Or.inr ⟨?_, ?_⟩)
@@ -258,7 +258,7 @@ theorem nodeStep_mlt {s s' : Sys} {n : Name} {nd : Node} {perm : List Name} (hF 
     · cases hs
       refine mlt_upd (x := { nd with pc := .self2 }) hn hN (SameM.of_nodes rfl) (Or.inr ⟨?_, ?_⟩)
       · simp [calOf, hpc, PC.iterC]
-      · simp [restOf, hr, hsu, rOf, hrest]
+      · simp [restOf, hc, hr, hsu, rOf]
         simp [linNode, todoOf, posOf, setupTerm, hpc, PC.iterC, PC.iterT, PC.loopback]; omega
     · cases hs
       refine mlt_upd hn hN (SameM.of_nodes rfl) (Or.inr ⟨?_, ?_⟩)
@@ -269,7 +269,7 @@ theorem nodeStep_mlt {s s' : Sys} {n : Name} {nd : Node} {perm : List Name} (hF 
     simp only [hpc] at hs; cases hs
     refine mlt_upd (x := { nd with pc := .afterSelf2 }) hn hN (SameM.of_nodes rfl) (Or.inr ⟨?_, ?_⟩)
     · simp [calOf, hpc, PC.iterC]
-    · simp [restOf, hr, rOf, hrest, hc]
+    · simp [restOf, hc, hr, hsu, rOf]
       simp [linNode, todoOf, posOf, setupTerm, hpc, PC.iterC, PC.iterT, PC.loopback]; omega
   | afterSelf2 =>
     simp only [hpc] at hs; cases hs
